@@ -89,3 +89,14 @@ package xsurveyor
 //@   ensures cast("*socket", result).sizeQ != nil && !closed(cast("*socket", result).sizeQ)
 //@
 // ---- end generated default contracts ----
+// ---- generated current-queue contracts (from `govc sites -select`): the select uses the socket's queues as of the last time the lock was held ----
+//@ func (*pipe).receiver
+//@   before select#1 assert selsends(p.s.recvQ) && selwaits(p.s.sizeQ)
+//@
+//@ func (*pipe).sender
+//@   before select#1 assert selwaits(p.sendQ)
+//@
+//@ func (*socket).RecvMsg
+//@   before select#1 assert selwaits(s.recvQ) && selwaits(s.sizeQ)
+//@
+// ---- end generated current-queue contracts ----
